@@ -76,10 +76,14 @@ pub enum Op {
     /// drive the stream in the slot to its next item on the executor
     StreamNext(u8),
     FDrop(u8),
+    /// `FusedStream::is_terminated` of the stream in the slot
+    StreamIsTerm(u8),
     // ---- handles (index into the thread's handle list of that side)
     Close(Side),
     NewHandle(Side, Conv),
     DropHandle(Side),
+    /// the handle is dropped while its thread is unwinding from a panic
+    DropHandleUnwinding(Side),
     // ---- observers, through a handle of the given side
     Len(Side),
     IsEmpty(Side),
@@ -144,7 +148,7 @@ impl Op {
             return Some(Side::R);
         }
         match self {
-            Close(s) | NewHandle(s, _) | DropHandle(s) | Len(s) | IsEmpty(s) | IsFull(s) | Cap(s)
+            Close(s) | NewHandle(s, _) | DropHandle(s) | DropHandleUnwinding(s) | Len(s) | IsEmpty(s) | IsFull(s) | Cap(s)
             | IsBounded(s) | SCount(s) | RCount(s) | IsClosed(s) | IsDisc(s) => Some(*s),
             IsTerm => Some(Side::R),
             _ => None,
